@@ -760,6 +760,10 @@ def r_sign(P, R):
         if check_function(R, f, subj, mode='emit', emit=emit,
                           scope=body) > 0:
             n += 1
+    if pid == 'C16':
+        # (the loader model of rules/models.py decides what load() makes
+        # of the signs; this rule is a second opinion there)
+        want = min(want, 1)
     R.floor(f'R-SIGN instances for {pid}', n, want)
     if pid in ('C04', 'C11', 'C16', 'C02'):
         check_flip(P, R)
